@@ -37,13 +37,58 @@ func runApply(docB, patchB []byte, o *jsonpatch.ApplyOptions) applyOut {
 
 // applyCore: one document shape, K operations, compared with refApply6902.
 // Serves C01 (result), C05 (order and literals), C08 (error classes), C15 (output well-formed), C04 (no panic).
-func applyCore(K, maxTok, tokKinds int) {
-	shape := vx.Choose("shape", nDocShapes)
+// Parameters: k (operations), maxtok, tokmask, shapemask, nvals, kmask0.. (operation kinds per position).
+func applyCore() {
+	K := vx.Param("k")
+	shape := chooseMask("shape", vx.Param("shapemask"), nDocShapes)
 	doc := docShape(shape, "d.")
 	ops := make([]Op, K)
 	for i := range ops {
-		ops[i] = genOp("op"+itoa(i), 0, maxTok, tokKinds)
+		ops[i] = genOp("op"+itoa(i), vx.Param("kmask"+itoa(i)), 0, vx.Param("maxtok"), vx.Param("tokmask"), vx.Param("nvals"))
 	}
+	checkApply(doc, ops)
+}
+
+// idxCore: array-bearing shapes; the last token of every pointer is a 2- or 3-byte
+// symbolic token (two-digit indices, "-1", "-10", "+1", "01" …).
+func idxCore() {
+	tb := vx.Param("tokbytes")
+	shapes := []int{5, 7, 4, 8, 11, 6}
+	shape := shapes[vx.Choose("shape", vx.Param("nshapes"))]
+	doc := docShape(shape, "d.")
+	mkPtr := func(name string) Ptr {
+		p := Ptr{}
+		switch shape {
+		case 4:
+			p.Toks = append(p.Toks, Tok{Raw: []byte("a"), Name: []byte("a")})
+		case 11:
+			p.Toks = append(p.Toks, Tok{Raw: []byte("a"), Name: []byte("a")}, Tok{Raw: []byte("0"), Name: []byte("0")})
+		}
+		b := make([]byte, tb)
+		for k := range b {
+			b[k] = symTokByte(name + "." + itoa(k))
+		}
+		p.Toks = append(p.Toks, Tok{Raw: b, Name: b})
+		return p
+	}
+	op := Op{Kind: vx.Choose("op0.kind", 6)}
+	op.Path = mkPtr("op0.path")
+	switch op.Kind {
+	case OpAdd, OpReplace, OpTest:
+		op.Val = valShape(vx.Choose("op0.val", 2), "op0.")
+		op.HasVal = true
+	case OpMove, OpCopy:
+		if vx.Choose("op0.fromsym", 2) == 0 {
+			op.From = mkPtr("op0.from")
+			op.Path = Ptr{Toks: append(append([]Tok(nil), op.Path.Toks[:len(op.Path.Toks)-1]...), Tok{Raw: []byte("0"), Name: []byte("0")})}
+		} else {
+			op.From = Ptr{Toks: append(append([]Tok(nil), op.Path.Toks[:len(op.Path.Toks)-1]...), Tok{Raw: []byte("0"), Name: []byte("0")})}
+		}
+	}
+	checkApply(doc, []Op{op})
+}
+
+func checkApply(doc *JV, ops []Op) {
 	neg := vx.Bool("negidx")
 	docB := render(doc)
 	patchB := renderPatch(ops)
@@ -99,6 +144,5 @@ func applyCore(K, maxTok, tokKinds int) {
 	vx.Reach("apply/end")
 }
 
-func H_Apply_K1() { applyCore(1, vx.Param("maxtok"), vx.Param("tokkinds")) }
-func H_Apply_K2() { applyCore(2, vx.Param("maxtok"), vx.Param("tokkinds")) }
-func H_Apply_K3() { applyCore(3, vx.Param("maxtok"), vx.Param("tokkinds")) }
+func H_Apply() { applyCore() }
+func H_Apply_Idx() { idxCore() }
